@@ -395,7 +395,8 @@ pub fn replay(case: &Value, st: &mut Stats) {
                 let text = String::from_utf8_lossy(&out.stdout).to_string();
                 if out.status.code() == Some(1) {
                     let sig = text.lines().find_map(|l| l.trim().strip_prefix("signature: ")).unwrap_or("other-build").to_string();
-                    st.fail(sig, case.clone(), 3, text);
+                    let detail: String = text.lines().filter_map(|l| l.trim().strip_prefix("detail: ")).collect::<Vec<_>>().join(" / ");
+                    st.fail(sig, case.clone(), 3, format!("in the other build: {detail}"));
                 }
             }
             let _ = std::fs::remove_file(&tmp);
